@@ -1,0 +1,1 @@
+//! Hooks owned by property C04 (feature `verif-hooks`).
